@@ -153,7 +153,7 @@ static void stream_section(const std::string& kind, const std::string& algo, con
                            const std::vector<int>& pats, size_t L2, size_t L3, bool fin_is_hex = false)
 {
     const size_t nl = L2 + 1;
-    std::atomic<uint64_t> n_chunk{0};
+    std::atomic<uint64_t> n_chunk{0}, n_reuse{0};
     vx::par_for(pats.size() * nl, 1, [&](uint64_t lo, uint64_t hi, unsigned) {
         for (uint64_t idx = lo; idx < hi; idx++) {
             if (out_of_time()) continue; // a deadline is not a violation: complete (pattern,length) units only
@@ -168,6 +168,20 @@ static void stream_section(const std::string& kind, const std::string& algo, con
                 h.reset();
                 h.w(d, len);
                 if (h.fin() != ref) S.viol(algo + "-reset-p" + u(p) + "-len" + u(len), "digest after Reset() differs: " + where);
+            }
+            if constexpr (decltype(h)::has_reset) {
+                // object reuse: a hasher that has absorbed k bytes (buffer partly filled, no Finalize) and is Reset() must
+                // behave like a fresh one, for every k up to two blocks
+                if (len <= 200 && (len % 7 == 0 || len < 4 || len % 64 >= 55)) {
+                    for (size_t k = 0; k <= 260; k++) {
+                        auto g = make();
+                        g.w(pat(p == 1 ? 2 : 1), k);
+                        g.reset();
+                        g.w(d, len);
+                        n_reuse++;
+                        if (g.fin() != ref) { S.viol(algo + "-reset-after-partial-write-p" + u(p) + "-len" + u(len), "Write(" + u(k) + " bytes); Reset(); Write(msg); Finalize() differs from a fresh object: " + where); break; }
+                    }
+                }
             }
             if (extra.empty()) S.line(T({kind, algo, u(p), u(len), fin_is_hex ? ref : hx(ref)}));
             else S.line(T({kind, algo, extra, u(p), u(len), fin_is_hex ? ref : hx(ref)}));
@@ -201,6 +215,7 @@ static void stream_section(const std::string& kind, const std::string& algo, con
         }
     });
     S.stat("chunkings", n_chunk);
+    if (n_reuse) S.stat("hasher_reset_reuse", n_reuse);
     S.flush();
 }
 
@@ -381,6 +396,65 @@ static void chacha_sections(size_t Lmax, size_t L2, size_t L3)
     });
     S.stat("chacha20_chunkings", nchunk);
     S.stat("chacha20_lengths", nprefix);
+    // ---- object reuse: SetKey() is documented as "set key, and seek to nonce 0 and block position 0". An object that has
+    // produced k bytes (k not a multiple of 64 leaves keystream in its buffer) with an old key / nonce / position and is
+    // then given a new key WITHOUT Seek must hand out exactly the stream of the new key from (nonce 0, block 0), which
+    // is one of the streams check.py recomputes (CC line with nonce (0,0), counter 0). Also SetKey -> Seek -> stream.
+    {
+        const size_t KMAX = L3 > 100 ? 200 : 130, N = 200;
+        std::atomic<uint64_t> nreuse{0};
+        vx::par_for(NPAT * NPAT, 1, [&](uint64_t lo, uint64_t hi, unsigned) {
+            for (uint64_t it = lo; it < hi; it++) {
+                const int kold = it / NPAT, knew = it % NPAT;
+                const uint8_t *oldkey = pat(kold, kold == 2 ? 100 : 0), *newkey = pat(knew, knew == 2 ? 100 : 0);
+                Bytes fresh(N), fresh_noseek(N), seeked(N);
+                { ChaCha20 c(bspan(newkey, 32)); c.Seek({0, 0}, 0); c.Keystream(bspan(fresh.data(), N)); }
+                { ChaCha20 c(bspan(newkey, 32)); c.Keystream(bspan(fresh_noseek.data(), N)); }
+                if (fresh != fresh_noseek) S.viol("chacha20-fresh-object-position-k" + u(knew), "a fresh object does not start at nonce 0, block 0");
+                { ChaCha20 c(bspan(newkey, 32)); c.Seek({NONCES[1].lo, NONCES[1].hi}, 5); c.Keystream(bspan(seeked.data(), N)); }
+                uint64_t n = 0;
+                for (size_t k = 0; k <= KMAX; k++)
+                    for (int mode = 0; mode < 4; mode++) { // how the k bytes were consumed: Keystream / Crypt / after a Seek elsewhere / split in two calls
+                        ChaCha20 c(bspan(oldkey, 32));
+                        Bytes junk(k + 1);
+                        if (mode == 2) c.Seek({7, 9}, 0xFFFFFFFFu);
+                        if (mode == 1) c.Crypt(bspan(pat(2), k), bspan(junk.data(), k));
+                        else if (mode == 3) { c.Keystream(bspan(junk.data(), k / 2)); c.Crypt(bspan(pat(0), k - k / 2), bspan(junk.data() + k / 2, k - k / 2)); }
+                        else c.Keystream(bspan(junk.data(), k));
+                        c.SetKey(bspan(newkey, 32));
+                        Bytes out(N), out2(N);
+                        // consume the new stream in two pieces, one Keystream and one Crypt
+                        c.Keystream(bspan(out.data(), 70));
+                        c.Crypt(bspan(pat(3), N - 70), bspan(out.data() + 70, N - 70)); // pattern 3 is all zero: Crypt == Keystream
+                        n++;
+                        if (out != fresh) {
+                            size_t pos = 0; while (pos < N && out[pos] == fresh[pos]) pos++;
+                            S.viol("chacha20-setkey-without-seek-k" + u(k % 64 ? 1 : 0) + "-mode" + u(mode), "after producing " + u(k) + " bytes, SetKey(new key) without Seek does not restart at nonce 0 / block 0 of the new key (first difference at byte " + u(pos) + ", old key pattern " + u(kold) + ", new key pattern " + u(knew) + ")");
+                        }
+                        ChaCha20 d(bspan(oldkey, 32));
+                        d.Keystream(bspan(junk.data(), k));
+                        d.SetKey(bspan(newkey, 32));
+                        d.Seek({NONCES[1].lo, NONCES[1].hi}, 5);
+                        d.Keystream(bspan(out2.data(), N));
+                        n++;
+                        if (out2 != seeked) S.viol("chacha20-setkey-seek-k" + u(k % 64 ? 1 : 0), "after producing " + u(k) + " bytes, SetKey + Seek differs from a fresh object with the same key and position");
+                    }
+                // aligned core: whole blocks only
+                for (size_t kb = 0; kb <= 3; kb++) {
+                    ChaCha20Aligned a(bspan(oldkey, 32));
+                    a.Seek({3, 4}, 0xFFFFFFFEu);
+                    Bytes junk(64 * kb + 1), out(192);
+                    a.Keystream(bspan(junk.data(), 64 * kb));
+                    a.SetKey(bspan(newkey, 32));
+                    a.Keystream(bspan(out.data(), 192));
+                    n++;
+                    if (memcmp(out.data(), fresh.data(), 192)) S.viol("chacha20aligned-setkey-position", "ChaCha20Aligned::SetKey does not restart at nonce 0 / block 0 after " + u(kb) + " blocks at another position");
+                }
+                nreuse += n;
+            }
+        });
+        S.stat("chacha20_setkey_reuse", nreuse);
+    }
     S.flush();
 }
 
